@@ -384,6 +384,9 @@ func run(id, tier string, replayFiles []string) int {
 					o = o[:1<<19] + "\n...[cut]...\n" + o[len(o)-(1<<19):]
 				}
 				r.output = o
+				if os.Getenv("VERIF_SHOW_OUTPUT") != "" {
+					fmt.Printf("--- output of %s shard %d ---\n%s\n", u.Name, j.idx, o)
+				}
 				if err != nil {
 					r.exit = 1
 					if ee, ok := err.(*exec.ExitError); ok {
